@@ -25,6 +25,32 @@ import sys, threading, dis
 import rrlib
 
 MODEL_BASE = {"__iter__": 105, "_iter_cached": 124}
+
+# the statements of `_iter_cached` in the numbering of Model/Cache.lean (124 = the `def` line).  The real function is
+# aligned to this listing by its TEXT (comments and blank lines dropped), so statements the model folds into another step
+# (the `except Exception:` handler of the D-C11-genraise repair: locals only; `gen = None` and the generation test
+# `if cache is self._cache:` of the D-C10-stale repair: a local and a comparison that is constantly true while no member is added) get no model line ("x<rel>": executed with
+# the previous pause point, never a pause point of their own) and do not shift the lines after them.
+MODEL_LISTING = {"_iter_cached": [
+    "def _iter_cached(self):", "i = 0", "gen = self._cache_gen", "cache = self._cache", "acquire = self._cache_lock.acquire",
+    "release = self._cache_lock.release", "while gen:", "if i == len(cache):", "acquire()", "try:",
+    "if self._cache_complete and cache is self._cache:",
+    "break", "try:", "for j in range(10):", "cache.append(advance_iterator(gen))", "except StopIteration:",
+    "self._cache_gen = None", "self._cache_complete = True", "break", "finally:", "release()", "yield cache[i]", "i += 1",
+    "while i < len(cache):", "yield cache[i]", "i += 1"]}
+
+
+def align_lines(func, listing, base):
+    """{real line number: model line number or None} for the statements of `func`"""
+    import inspect, difflib
+    src, first = inspect.getsourcelines(func)
+    real = [(first + k, l.strip()) for k, l in enumerate(src) if l.strip() and not l.strip().startswith("#")]
+    sm = difflib.SequenceMatcher(None, [t for _, t in real], listing, autojunk=False)
+    out = dict((ln, None) for ln, _ in real)
+    for a, b, n in sm.get_matching_blocks():
+        for k in range(n):
+            out[real[a + k][0]] = base + b + k
+    return out
 ENTRY_METHODS = ("__getitem__", "__contains__", "count", "before", "after", "xafter", "between")
 
 
@@ -125,9 +151,12 @@ class Sched(object):
         self.rule = rule
         self.rules = list(rules) if rules is not None else [rule]
         self.line_codes = {}
+        self.line_maps = {}
         for name, base in MODEL_BASE.items():
             code = getattr(R.rrulebase, name).__code__
             self.line_codes[code] = base - code.co_firstlineno
+            if name in MODEL_LISTING:
+                self.line_maps[code] = align_lines(getattr(R.rrulebase, name), MODEL_LISTING[name], base)
         self.entry_codes = {}
         for name in ENTRY_METHODS:
             code = getattr(R.rrulebase, name).__code__
@@ -178,7 +207,13 @@ class Sched(object):
 
     def _line(self, frame, event, arg):
         if event == "line":
-            self.pause(self.me(), str(frame.f_lineno + self.line_codes[frame.f_code]))
+            m = self.line_maps.get(frame.f_code)
+            if m is None:
+                self.pause(self.me(), str(frame.f_lineno + self.line_codes[frame.f_code]))
+            else:
+                ml = m.get(frame.f_lineno)
+                if ml is not None:          # a statement the model folds into the previous step is not a pause point
+                    self.pause(self.me(), str(ml))
         return self._line
 
     def _entry(self, frame, event, arg):
